@@ -37,7 +37,7 @@ func init() {
 			"F2 every copy into a fixed-size pooled buffer is bounded by guards whose constants fit the buffer including the destination offset (or the buffer is re-allocated to the source length), and re-slices of pooled buffers use lengths derived from the buffer; F3 two-sided slices have ordered bounds (or the MarshalSize-of-a-header-parsed-from-the-same-bytes idiom) and length-relative bounds are tested; " +
 			"F4 results of Attributes.GetRTPHeader/GetRTCPPackets, rtcp.Unmarshal and pion/rtp Unmarshal are used only on the success branch of their error; A4 read buffers are used only as buffer[:n]; D3 no blocking send/receive on an internal channel on an API path without a close-channel case or default (no wedge).",
 		notDecided:  "crash-freedom itself: panics whose absence rests on arithmetic invariants (ring/bitmap indices seq%size, packetArrivalTimeMap capacity arithmetic, flexfec XOR lengths and constant header offsets), nil dereferences, panics inside pion/rtp and pion/rtcp, termination of loops (all loops over untrusted counts are bounded by 16-bit fields; not checked mechanically), one-sided slices s[n:] whose bound a callee computed",
-		sels:        []sel{s("F1"), s("F2"), s("F3"), s("F4"), s("A4"), s("D3")},
+		sels:        []sel{s("F1"), s("F2"), so("F3"), s("F4"), s("A4"), s("D3")},
 		assumptions: append([]string{"comparisons are credited as guards whatever their direction/strictness (a missing guard is detected, an off-by-one in a present guard is not, except for constant guards of pooled-buffer copies where the arithmetic is checked)", "two evaluations of a condition built only from parameters and constants agree (path classes are split on such conditions)"}, stdAssume...),
 	})
 	def(&propDef{
@@ -78,7 +78,7 @@ func init() {
 			"T1 — retain/release typestate: every packet obtained from RTPBuffer.Get is released exactly once after its last use, every slot overwrite in RTPBuffer.Add/Clear releases the previous occupant exactly once, Get hands out only packets that passed a successful Retain (a double release would recycle a buffer that is still being retransmitted); " +
 			"C1 — ring, stream table and reference count are only touched under their mutexes; A1 — the original packet is forwarded exactly once after the copy; D5 — unbind removes the stream's ring.",
 		notDecided:  "which sequence numbers the ring holds (window arithmetic seq%size, half-range tests), RTX header field values, the padding arithmetic, that the retransmission goroutine has finished when Close returns (known finding under C11)",
-		sels: []sel{s("F2", `rtpbuffer`), s("B", `nack\.\(\*ResponderInterceptor\)`), s("T1"), s("T2"), s("C1", `pkg/nack\.(localStream|ResponderInterceptor)\.|rtpbuffer\.RetainablePacket\.`),
+		sels: []sel{s("F2", `rtpbuffer`), s("B", `nack\.\(\*ResponderInterceptor\)`), s("T1"), so("T2"), s("C1", `pkg/nack\.(localStream|ResponderInterceptor)\.|rtpbuffer\.RetainablePacket\.`),
 			s("A1", `nack\.\(\*ResponderInterceptor\)`), s("D5", `nack\.ResponderInterceptor`)},
 		assumptions: stdAssume,
 	})
@@ -90,7 +90,7 @@ func init() {
 		explanation: "Decides a necessary structural clause for every long-lived container of the library (every map, slice, list, sync.Map and channel field of a struct type that another struct holds, plus slices local to goroutine loops and the jitter buffer's linked list): E1 — a container that grows on a traffic path (reachable from a per-packet closure, a goroutine entry or a pacer/estimator entry point) also shrinks on a traffic path, or is of a bounded kind (channel with a configured capacity, map keyed by a ≤16-bit type, owner struct replaced as a whole, per-call temporary); " +
 			"E2 — a shrink site that only executes when a struct field is set counts only if something in the program sets that field; E3 — where a growing slice is processed on an equality trigger len(x)==N, every path from that branch resets it (otherwise the length passes N and the trigger never fires again); D5 — per-stream containers filled by Bind*Stream are emptied by the matching Unbind*Stream.",
 		notDecided:  "the numeric bound itself; whether an existing shrink runs often enough; GC reachability through third-party objects; growth hidden inside pion/rtp, pion/rtcp or x/time/rate",
-		sels:        []sel{s("E1"), s("E2"), s("E3"), s("D5")},
+		sels:        []sel{s("E1"), s("E2"), so("E3"), s("D5")},
 		assumptions: []string{"go/ssa and go/types model the program faithfully", "traffic paths are the call-graph closure of per-packet closures, goroutine entries and the exported per-packet entry points of pacers/estimators/recorders"},
 	}
 }
@@ -129,7 +129,7 @@ func init() {
 		explanation: "Decides the structural clauses the statement singles out: G1 — in every function that walks []*rtcp.RecvDelta with a cursor, no instruction that advances the cursor is control-dependent (post-dominator based, transitively) on a condition derived from a lookup in long-lived state (a comma-ok map lookup on a field, or a (T,bool) lookup predicate such as feedbackHistory.get): the arrival time decoded for a packet is independent of whether neighbouring packets are still in the history; " +
 			"G2 — in every symbol loop, the counter that feeds the attribution key (feedbackHistoryKey.sequenceNumber / acknowledgement.sequenceNumber) is advanced exactly once on every path through the loop body (path counting), or is the range index; F1 — every index into RecvDeltas / packet-derived slices is guarded; E2 — the flag that lets history.delete release the TWCC mapping is actually set.",
 		notDecided:  "arrival-time arithmetic (reference time ×64 ms, 250 µs deltas, RFC 8888 offsets), LRU contents of the sent-packet history, that each sent packet is reported at most once and in send order (value properties of history.buildReport), zero-valued acknowledgements emitted for unknown packets",
-		sels:        []sel{s("G1"), s("G2"), s("F1", `rtpfb\.convertTWCC|FeedbackAdapter|rtpfb\.convert`), s("E2", `rtpfb\.history`), s("E1", `rtpfb\.history`)},
+		sels:        []sel{s("G1"), s("G2"), s("F1", `rtpfb\.convertTWCC|FeedbackAdapter|rtpfb\.convert`), so("E2", `rtpfb\.history`), so("E1", `rtpfb\.history`)},
 		assumptions: std,
 	}
 	props["C16"] = &propDef{
@@ -157,7 +157,7 @@ func init() {
 		explanation: "Decides the structural clauses: M1 — in FlexEncoder03.encodeFlexFecPacket all accesses to the coverage table (GetCoveredBy, ExtractMask1/2/3_03) use one and the same index value, so the masks written name exactly the packets that were combined, and the repair sequence number is advanced exactly once on every path that produces a packet and on none that does not; " +
 			"P2 + A1 — the application's packet is forwarded first, exactly once, unmodified (A3), and repair packets are injections issued only after it; B — what is buffered for XOR is a deep copy of what was sent (caller may reuse its buffer); F2 — the scratch buffer is re-allocated when a packet exceeds the pooled size; E3/C1 — the batch buffer is reset on every path from the batch-full trigger, under the stream mutex.",
 		notDecided:  "XOR recoverability itself, bit layout of the masks, header offsets and length recovery — algebra over byte values; the coverage mask construction (flexfec_coverage.go); FlexEncoder20 and the decoder (declared work in progress)",
-		sels:        []sel{s("M1"), s("P2", `flexfec`), s("A1", `flexfec`), s("A3", `flexfec`), s("B", `flexfec`), s("F2", `flexfec`), s("E3", `flexfec`), s("C1", `flexfec\.`)},
+		sels:        []sel{s("M1"), so("P2", `flexfec`), s("A1", `flexfec`), s("A3", `flexfec`), s("B", `flexfec`), so("F2", `flexfec`), so("E3", `flexfec`), s("C1", `flexfec\.`)},
 		assumptions: std,
 	}
 	props["C17"] = &propDef{
